@@ -74,11 +74,11 @@ class Model:
         return (h, self._g(q), self._f(q)) if self.with_aux else h
 
     def mtp_neg_log_dens(self, q):
-        self._enter("mtp_neg_log_dens")
+        f = self._enter("mtp_neg_log_dens")
         q = np.array(q)
 
         def mtp(m):
-            return 2.4 * q * np.diag(m)
+            return self._poison(2.4 * q * np.diag(m), f)
 
         return (mtp, self._hess(q), self._g(q), self._f(q)) if self.with_aux else mtp
 
@@ -127,12 +127,15 @@ class Model:
         return (j, self._c(q)) if self.with_aux else j
 
     def mhp_constr(self, q):
-        self._enter("mhp_constr")
+        f = self._enter("mhp_constr")
         k, curved = self.k, self.curved
 
         q = np.array(q)
 
         def mhp(m):
+            return self._poison(mhp_(m), f)
+
+        def mhp_(m):
             if curved == "wavy":
                 out = np.zeros(m.shape[1])
                 out[0] = 9.0 * np.sin(3.0 * q[0]) * m[0, 0]
@@ -154,11 +157,11 @@ class Model:
         return self._poison(1.0 + 0.5 * q @ q, f)
 
     def vjp_metric_scalar(self, q):
-        self._enter("vjp_metric_func")
+        f = self._enter("vjp_metric_func")
         q = np.array(q)
 
         def vjp(v):
-            return v * q
+            return self._poison(v * q, f)
 
         return (vjp, 1.0 + 0.5 * q @ q) if self.with_aux else vjp
 
@@ -167,11 +170,11 @@ class Model:
         return self._poison(1.0 + q**2, f)
 
     def vjp_metric_diag(self, q):
-        self._enter("vjp_metric_func")
+        f = self._enter("vjp_metric_func")
         q = np.array(q)
 
         def vjp(v):
-            return 2.0 * q * v
+            return self._poison(2.0 * q * v, f)
 
         return (vjp, 1.0 + q**2) if self.with_aux else vjp
 
@@ -185,13 +188,13 @@ class Model:
         return self._poison(self._chol(q), f)
 
     def vjp_metric_chol(self, q):
-        self._enter("vjp_metric_func")
+        f = self._enter("vjp_metric_func")
         q = np.array(q)
 
         def vjp(v):
             out = np.diag(v) * q
             out[0] += 0.3 * v[1, 0]
-            return out
+            return self._poison(out, f)
 
         return (vjp, self._chol(q)) if self.with_aux else vjp
 
@@ -203,11 +206,11 @@ class Model:
         return self._poison(self._dense(q), f)
 
     def vjp_metric_dense(self, q):
-        self._enter("vjp_metric_func")
+        f = self._enter("vjp_metric_func")
         q = np.array(q)
 
         def vjp(v):
-            return 2.0 * q * np.diag(v)
+            return self._poison(2.0 * q * np.diag(v), f)
 
         return (vjp, self._dense(q)) if self.with_aux else vjp
 
